@@ -176,6 +176,9 @@ def run(ctx):
             rows_u = list(range(nu)) + [rng.randrange(nu) for _ in range(n - nu)]
             ask = rng.sample(names, rng.randint(2, nu))
             case["named_units"] = dict(names=names, rows=rows_u, ask=ask)
+        if method in ("bruteforce", "montecarlo") and case.get("named_units") is None and case.get("groups") is None and it % 3 == 2 and not case["joint"]:
+            # labels as a Series and training metadata as a DataFrame keyed by strings (what a table read from a file carries)
+            case["pandas_keys"] = ["row-%s" % w for w in rng.sample(["north", "south", "east", "west", "up", "down", "left", "right", "front", "back", "in", "out"], n)]
         if method == "neighborK":
             case["kw"] = {"nn_k": 2}
             n_units = rng.randint(2, 4)
